@@ -45,6 +45,8 @@ SPEC = [
          why="the key is copied with clone_from_slice"),
     dict(trait="auth::SnmpAuth", method="sign", impl_prefix="auth::digest::DigestAuth", requires=["a3 + SS <= len(a2)"],
          why="the MAC is written at the bookmark inside the serialised message"),
+    dict(fn="<std::vec::Vec<u8> as ber::objectid::OidStorage>::store", ensures=["len(a1) == len(a2._0)"],
+         why="store() replaces the remembered OID: afterwards it is exactly as long as the OID stored (a shorter OID must not keep the tail of a longer one)"),
     dict(fn="ber::relative_oid::SnmpRelativeOid::<'_>::subelements", ensures=["ret <= len(a1)"],
          why="counts octets of the data"),
     dict(fn="ber::relative_oid::SnmpRelativeOid::<'_>::find_subelement", ensures_some=["ret.Some._0 < len(a1)"],
